@@ -97,7 +97,54 @@ fn run<const D: usize>(entry: &Value) -> Value {
             });
         }
     }
-    json!({"build": "Ok", "dimension": sampler.get_dimension(), "dod": format!("{:016x}", sampler.get_dod().to_bits()), "results": results})
+    // log-free observation of the (rescaled) Feynman parameters: with a unit shift on edge e only, u_l = x_e S_el e_1
+    let mut recovered = vec![];
+    if entry["recover"].as_bool().unwrap_or(false) {
+        let sig: Vec<Vec<i64>> = entry["sig"].as_array().unwrap().iter().map(|r| r.as_array().unwrap().iter().map(|x| x.as_i64().unwrap()).collect()).collect();
+        let ne = sig.len();
+        for st in entry["settings"].as_array().unwrap() {
+            let settings = TropicalSamplingSettings {
+                matrix_stability_test: None,
+                print_debug_info: st["debug"].as_bool().unwrap(),
+                return_metadata: true,
+            };
+            for p in entry["points"].as_array().unwrap() {
+                let x: Vec<f64> = p.as_array().unwrap().iter().map(f).collect();
+                let mut xs: Vec<Value> = vec![];
+                for e in 0..ne {
+                    let l = match sig[e].iter().position(|s| *s != 0) {
+                        Some(l) => l,
+                        None => {
+                            xs.push(Value::Null);
+                            continue;
+                        }
+                    };
+                    let ed1: Vec<(Option<f64>, Vector<f64, D>)> = (0..ne)
+                        .map(|k| {
+                            let mut v = vec![0.0; D];
+                            if k == e {
+                                v[0] = 1.0;
+                            }
+                            (ed[k].0, Vector::from_vec(v))
+                        })
+                        .collect();
+                    let r = catch_unwind(AssertUnwindSafe(|| sampler.generate_sample_from_x_space_point(&x, ed1, &settings)));
+                    match r {
+                        Ok(Ok(s)) => match &s.metadata {
+                            Some(m) => {
+                                let u = m.u_vectors[l].get_elements()[0];
+                                xs.push(json!(format!("{:016x}", (u / sig[e][l] as f64).to_bits())));
+                            }
+                            None => xs.push(Value::Null),
+                        },
+                        _ => xs.push(Value::Null),
+                    }
+                }
+                recovered.push(Value::Array(xs));
+            }
+        }
+    }
+    json!({"build": "Ok", "dimension": sampler.get_dimension(), "dod": format!("{:016x}", sampler.get_dod().to_bits()), "results": results, "recovered": recovered})
 }
 
 fn main() {
